@@ -1004,6 +1004,34 @@ def translate_abi_tables():
         gout[key] = fs
     if not re.search(r"types\.NewStruct\(\s*mapSlice\(structType\.fieldIrTypes, func\(t ddpIrType\) types\.Type \{ return t\.IrType\(\) \}\)\.\.\.", irk):
         return None, "ir_struct_type.go: a Kombination is no longer the struct of its field types in declaration order"
+    # -- field roles: position of each named field in the header struct / index constant of the compiler
+    def names(sname):
+        out_ = []
+        for f in structs[sname]:
+            u = re.match(r"union \{ void \*(\w+); uint8_t (\w+)\[(\w+)\]; \}$", f)
+            out_.append(u.group(2) if u else f.split()[-1].lstrip("*"))
+        return out_
+    roles_h = {}
+    ln = [names(l) for l in ("ddpintlist", "ddpfloatlist", "ddpbytelist", "ddpboollist", "ddpcharlist", "ddpstringlist", "ddpanylist")]
+    if any(x != ln[0] for x in ln) or sorted(ln[0]) != ["arr", "cap", "len"]:
+        return None, "ddptypes.h: list structs do not have the fields arr, len, cap in one common order: %s" % ln
+    roles_h["list"] = [ln[0].index(r) for r in ("arr", "len", "cap")]
+    sn, an = names("ddpstring"), names("ddpany")
+    if sorted(sn) != ["cap", "str"] or sorted(an) != ["value", "vtable_ptr"]:
+        return None, "ddptypes.h: unexpected fields in ddpstring/ddpany: %s %s" % (sn, an)
+    roles_h["string"] = [sn.index("str"), sn.index("cap")]
+    roles_h["any"] = [an.index("vtable_ptr"), an.index("value")]
+    roles_g = {}
+    for key, text, consts in (("list", irl, ("list_arr_field_index", "list_len_field_index", "list_cap_field_index")),
+                              ("string", irs, ("string_str_field_index", "string_cap_field_index")),
+                              ("any", ira, ("any_vtable_ptr_index", "any_value_index"))):
+        vals = []
+        for cst in consts:
+            m = re.search(r"^\s*%s\s*=\s*(\d+)\s*$" % cst, text, re.M)
+            if not m:
+                return None, "compiler: constant %s not found" % cst
+            vals.append(int(m.group(1)))
+        roles_g[key] = vals
     lines = ["(* GENERATED by checks/c18.py (translate_abi_tables) from /repo on every run - do not edit.",
              "   Sources: lib/runtime/include/DDP/ddptypes.h, src/compiler/helper.go, ir_string_type.go, ir_any_type.go, list_types.go *)",
              "From Coq Require Import List.", "Import ListNotations.", "From DDP Require Import Lower.AbiTypes.", ""]
@@ -1015,6 +1043,10 @@ def translate_abi_tables():
     lines.append("Definition go_string_fields : list llty := [%s]." % "; ".join(gout["ddpstring"]))
     lines.append("Definition go_any_fields : list llty := [%s]." % "; ".join(gout["ddpany"]))
     lines.append("Definition go_list_fields (e : llty) : list llty := [%s]." % "; ".join(gout["list"]))
+    lines.append("(* position of the fields (arr, len, cap) / (str, cap) / (vtable_ptr, value): header order vs. the compiler's *_field_index constants *)")
+    for key in ("list", "string", "any"):
+        lines.append("Definition hdr_%s_roles : list nat := [%s]." % (key, "; ".join(map(str, roles_h[key]))))
+        lines.append("Definition go_%s_roles : list nat := [%s]." % (key, "; ".join(map(str, roles_g[key]))))
     return "\n".join(lines) + "\n", None
 
 
